@@ -146,7 +146,12 @@ pub mod gs {
     pub open spec fn no_dup<T>(s: Seq<T>) -> bool { forall|i: int, j: int| 0 <= i < j < s.len() ==> s[i] != s[j] }
     /// every output of every build names that build as its (only) producer, and every
     /// producer link points at a build that lists the file
+    /// every recorded dependent is a valid build id
+    pub open spec fn deps_le(fs: Seq<File>, n: int) -> bool {
+        forall|f: int, k: int| 0 <= f < fs.len() && 0 <= k < fs[f].dependents@.len() ==> ix(#[trigger] fs[f].dependents@[k]) < n
+    }
     pub open spec fn wf_graph(g: Graph) -> bool {
+        &&& deps_le(files(g), builds(g).len() as int)
         &&& builds(g).len() < 0x1_0000_0000
         &&& files(g).len() < 0x1_0000_0000
         &&& forall|b: int| 0 <= b < builds(g).len() ==> wf_build(#[trigger] builds(g)[b]) && build_ids_ok(g, builds(g)[b]) && no_dup(builds(g)[b].outs.ids@)
@@ -266,6 +271,7 @@ pub mod gs {
             no_dup(b.outs.ids@),
             outs_marked(files(g0), files(g1), BuildId(builds(g0).len() as u32), b.outs.ids@),
             all_unproduced(files(g0), b.outs.ids@),
+            deps_le(files(g1), (builds(g0).len() + 1) as int),
         ensures wf_graph(g1),
     {
         broadcast use crate::vx_keys::group_keys;
